@@ -67,6 +67,7 @@ type ConvCase struct {
 	Phases [][]Raw // phase 0 plaintext (or the only phase under implicit TLS); later phases after STARTTLS
 	Extra  []*Sx   // expectations stated by the generator (focus, expect-codes, ...), passed through to the oracle
 	PanicAt map[string]int // backend callbacks that panic (such cases carry (nomodel): judged by the oracles only)
+	CloseAt map[string]int // backend callbacks in which Server.Close is called from another goroutine (closeat.go; (nomodel))
 }
 
 type logWriter struct {
@@ -110,6 +111,7 @@ func RunConv(c ConvCase) *Sx {
 		}
 	}
 	s := smtp.NewServer(be)
+	be.CloseAt, be.CloseFn = c.CloseAt, s.Close
 	lg := &logWriter{}
 	s.ErrorLog = lg
 	s.Domain = c.Cfg.Domain
@@ -140,10 +142,14 @@ func RunConv(c ConvCase) *Sx {
 		phases, served = runTLSConvImpl(s, be, c)
 	} else {
 		sc := NewScriptConn(c.Phases[0])
-		sc.OnWrite = func(p []byte) { be.AddWire(p); be.SyncPoint() }
+		sc.OnWrite = func(p []byte) { be.AddWire(p); be.waitClose(); be.SyncPoint() }
 		sc.OnRead = be.SyncPoint
 		be.Baseline = runtime.NumGoroutine() + 2 // the connection goroutine and Shutdown waiter (Serve itself returns early)
-		served = serveOne(s, sc)
+		if c.CloseAt != nil {
+			served = serveUntilHandled(s, sc)
+		} else {
+			served = serveOne(s, sc)
+		}
 		phases = [][]Raw{append(append([]Raw(nil), sc.Log...), sc.Remaining()...)}
 	}
 	okWait := !be.NoSync && be.Wait()
